@@ -115,6 +115,7 @@ bool FilePersister::initialise(const f8String& dbDir, const f8String& dbFname, b
 		}
 
 		IPrec iprec;
+		off_t ipos(0);
 		while (true)
 		{
 			const ssize_t blrd(read(_iod, static_cast<void *>(&iprec), sizeof(IPrec)));
@@ -129,7 +130,10 @@ bool FilePersister::initialise(const f8String& dbDir, const f8String& dbFname, b
 			if (iprec._seq == 0)
 			{
 				glout_info << iprec;
+				if (_ctrl_pos < 0)
+					_ctrl_pos = ipos;
 			}
+			ipos += blrd;
 
 			if (!_index.insert({iprec._seq, iprec._prec}).second)
 			{
@@ -237,12 +241,18 @@ bool FilePersister::put(const unsigned sender_seqnum, const unsigned target_seqn
 	else
 		itr->second = iprec._prec;
 
-	if (lseek(_iod, 0, SEEK_SET) < 0)
+	// the control record is rewritten in place; the first one is appended so that it never
+	// overwrites the index record of a message that was stored before it
+	const off_t pos(_ctrl_pos < 0 ? lseek(_iod, 0, SEEK_END) : lseek(_iod, _ctrl_pos, SEEK_SET));
+	if (pos < 0)
 	{
-		glout_error << "Error: could not seek to 0 for seqnum persitence: " << _dbIname;
+		glout_error << "Error: could not seek to control record for seqnum persitence: " << _dbIname;
 		return false;
 	}
-	return write (_iod, static_cast<void *>(&iprec), sizeof(IPrec)) == sizeof(IPrec);
+	if (write (_iod, static_cast<void *>(&iprec), sizeof(IPrec)) != sizeof(IPrec))
+		return false;
+	_ctrl_pos = pos;
+	return true;
 }
 
 //-------------------------------------------------------------------------------------------------
